@@ -60,7 +60,7 @@ func VerifC03Char(class int) {
 		vrt.Assume(0x10000 <= r && r <= 0x10FFFF)
 	}
 	c := Character(r)
-	vrt.Carve("C03-char-delimiter-unreadable", r == '(' || r == ')' || r == '"' || r == ';' || r == '|' || r == '\'' || r == '`' || r == ',' || r == ' ' || r == 0x7f)
+	vrt.Carve("C03-char-delimiter-unreadable", zzC03In(byte(r), " !\"$%&'();?[\\]`{}") && r < 0x80)
 	text := c.Readably(nil, zzC03Printer(true))
 	out := zzC03Read(text)
 	vrt.Reach("read")
@@ -86,6 +86,37 @@ func VerifC03Symbol(n int, pc int, alpha int) {
 		}
 	}
 	sym := Symbol(string(b))
+	ctl, bar, num, quest := false, false, true, false
+	digit := false
+	for _, c := range b {
+		if c < 0x20 {
+			ctl = true
+		}
+		if c == '|' || c == '\\' {
+			bar = true
+		}
+		if c == '?' {
+			quest = true
+		}
+		if !zzC03In(c, "0123456789+-./eEdDfFlLsS") {
+			num = false
+		}
+		if '0' <= c && c <= '9' {
+			digit = true
+		}
+	}
+	vrt.Carve("C03-symbol-bar-or-backslash", bar)
+	vrt.Assume(b[0] != '@') // @... is slip's time-literal extension (time.ParseInLocation: native, concrete only)
+	kwSpecial := false
+	if b[0] == ':' {
+		for _, c := range b[1:] {
+			if !zzC03In(c, "abcdefghijklmnopqrstuvwxyzABCDEFGHIJKLMNOPQRSTUVWXYZ0123456789-+*/<=>_.:@%$^~") {
+				kwSpecial = true
+			}
+		}
+	}
+	vrt.Carve("C03-symbol-specials-unquoted", ctl || quest || kwSpecial)
+	vrt.Carve("C03-symbol-reads-as-other-datum", (num && digit) || zzC03Fold(b, "t") || zzC03Fold(b, "nil"))
 	p := zzC03Printer(true)
 	switch pc {
 	case 0:
@@ -139,4 +170,30 @@ func VerifC03Fixnum(base int, radix int) {
 	got, ok := out.code[0].(Fixnum)
 	vrt.Assert(ok, "a printed fixnum reads back as another type")
 	vrt.Assert(int64(got) == x, "a printed fixnum reads back as a different number")
+}
+
+func zzC03In(c byte, set string) bool {
+	for i := 0; i < len(set); i++ {
+		if set[i] == c {
+			return true
+		}
+	}
+	return false
+}
+
+// zzC03Fold: b equals the lower-case ASCII word w ignoring case.
+func zzC03Fold(b []byte, w string) bool {
+	if len(b) != len(w) {
+		return false
+	}
+	for i := range b {
+		c := b[i]
+		if 'A' <= c && c <= 'Z' {
+			c += 'a' - 'A'
+		}
+		if c != w[i] {
+			return false
+		}
+	}
+	return true
 }
